@@ -83,9 +83,16 @@ theorem attrs_head (as : List (Bytes × Bytes)) (more : Bytes) :
   | nil => exact ⟨GT, more, rfl, by decide, by decide⟩
   | cons a as => exact ⟨SPACE, _, rfl, by decide, by decide⟩
 
+/-- none of the generated name-end delimiters is a byte the dialect allows in names (so `<nm` followed by a
+name byte is a longer name, and followed by a delimiter it is the element `nm`) -/
+theorem nameEnd_not_nameByte : ∀ x ∈ Gen.XmlConsts.nameEndBytes, nameByte x = false := by decide
+
 theorem nameByte_not_nameEnd {b : UInt8} (h : nameByte b = true) : isNameEnd b = false := by
-  obtain ⟨_, h2, h3, h4, _, _, h7, h8, h9, _, _⟩ := nameByte_ne h
-  simp [isNameEnd, h2, h3, h4, h7, h8, h9]
+  cases hb : isNameEnd b with
+  | false => rfl
+  | true =>
+    have := nameEnd_not_nameByte b ((isNameEnd_iff b).mp hb)
+    rw [h] at this; cases this
 
 -- ---------------------------------------------------------------- tokens
 def Tok.WF : Tok → Prop
